@@ -214,7 +214,7 @@ def run_check(tier, seed):
     for P, c, Q, origin, vcs in meta[:2]:
         run.sample(dict(pre=str(P), com=g_com(c), post=str(Q), vcs=vcs))
 
-    ocodes = coq_eval_nats(run.wd, IMPORTS, oracle_exprs, tag='orc', shard=300)
+    ocodes = coq_eval_nats(run.wd, IMPORTS, oracle_exprs, tag='orc', shard=300, timeout=300, fail_code=2)
     n_ok = sum(1 for x in ocodes if x == 1)
     n_vac = sum(1 for x in ocodes if x == 2)
     for (P, c, Q, origin, vcs, s0), code in zip(oracle_meta, ocodes):
